@@ -12,8 +12,22 @@
     zoned senders to tie this.
   * The `interface` label is the monitor's own constant `m.iface` in every call; it is not
     carried in the model (the harness rejects any series whose interface label differs).
-  * A `prefix` label is the structured value `(addr, len)`; its rendering is
-    `netip.PrefixFrom(addr, len).String()` (`cidrStr`, trusted, injective for len ≤ 128).
+  * A `prefix` label is the structured value `PLabel` = what `cidrStr(p.Prefix, p.PrefixLength)`
+    = `netip.PrefixFrom(addr, len).String()` (metrics.go) renders:
+      - `PLabel.cidr addr len`, the text `addr/len`, when `len ≤ 128` (`netip.Prefix.String` is
+        trusted to be injective on (16-byte address, length ≤ 128));
+      - `PLabel.invalid`, the one literal text `invalid Prefix`, when `len > 128`:
+        `netip.PrefixFrom` returns the invalid prefix for a length out of range and
+        `Prefix.String` prints that literal, whatever the address.  A Prefix Information option
+        with length byte 129..255 is *not* rejected by `ndp` v1.1.0 (`ParseMessage` succeeds and
+        yields `PrefixLength = that byte`, `Prefix = netip.Addr{}`, because
+        `PrefixFrom(ip, len).Masked()` of an invalid prefix is the zero prefix), so any on-link
+        host can make the monitor take this branch.  Consequence, modelled as is: all such
+        options of one router share one label, and the last one written wins.
+    `PI.addr` is the 128-bit value of `p.Prefix`; for the zero `netip.Addr{}` (which the decoder
+    produces exactly when the length is > 128, where the address is irrelevant) it is 0.
+    A Go-built `PrefixInformation` with the zero address and a length ≤ 128, or a 4-byte
+    address, cannot come from the decoder and is outside the model.
   * A message is an RA (header + options) or any other NDP message, identified by its
     ICMPv6 type (133 RS, 135 NS, 136 NA, …).  Of the options only Prefix Information
     matters (`pick[*ndp.PrefixInformation]`); all other options are `Opt.other code`.
@@ -44,6 +58,22 @@ structure PI where
   preferred : Dur
   valid : Dur
 deriving DecidableEq, Repr
+
+/-- The `prefix` label: what `cidrStr` renders. -/
+inductive PLabel where
+  /-- `addr/len` (only ever produced with `len ≤ 128`) -/
+  | cidr (addr len : Nat)
+  /-- the literal `invalid Prefix` -/
+  | invalid
+deriving DecidableEq, Repr
+
+/-- `cidrStr(p.Prefix, p.PrefixLength)`; 128 is the largest length `netip.PrefixFrom` accepts
+    for a 16-byte address -/
+def PI.label (p : PI) : PLabel :=
+  if p.len ≤ 128 then .cidr p.addr p.len else .invalid
+
+/-- a length byte no IPv6 prefix can have (129..255 on the wire) -/
+def PI.malformed (p : PI) : Bool := decide (128 < p.len)
 
 /-- An RA option: Prefix Information, or anything else (by option type; ignored). -/
 inductive Opt where
@@ -85,13 +115,13 @@ inductive Series where
   /-- `corerad_monitor_default_route_expiration_timestamp_seconds{router}` -/
   | defaultRoute (router : Nat)
   /-- `corerad_monitor_prefix_autonomous{prefix, router}` -/
-  | prefixAutonomous (addr len router : Nat)
+  | prefixAutonomous (pl : PLabel) (router : Nat)
   /-- `corerad_monitor_prefix_on_link{prefix, router}` -/
-  | prefixOnLink (addr len router : Nat)
+  | prefixOnLink (pl : PLabel) (router : Nat)
   /-- `corerad_monitor_prefix_preferred_expiration_timestamp_seconds{prefix, router}` -/
-  | prefixPreferred (addr len router : Nat)
+  | prefixPreferred (pl : PLabel) (router : Nat)
   /-- `corerad_monitor_prefix_valid_expiration_timestamp_seconds{prefix, router}` -/
-  | prefixValid (addr len router : Nat)
+  | prefixValid (pl : PLabel) (router : Nat)
 deriving DecidableEq, Repr
 
 /-- One call on `cctx.mm`: a counter `Add` or a gauge `Set`. -/
@@ -116,12 +146,13 @@ def pickPI : List Opt → List PI
   | .pi p :: r => p :: pickPI r
   | .other _ :: r => pickPI r
 
-/-- Body of the `for _, p := range pick[…]` loop. -/
+/-- Body of the `for _, p := range pick[…]` loop (`str := cidrStr(p.Prefix, p.PrefixLength)` is
+    `p.label`). -/
 def prefixOps (host : Nat) (now : Time) (p : PI) : List MetricOp :=
-  [ .set (.prefixAutonomous p.addr p.len host) (b2i p.autonomous),
-    .set (.prefixOnLink p.addr p.len host) (b2i p.onLink),
-    .set (.prefixPreferred p.addr p.len host) (unixSec (now + p.preferred)),
-    .set (.prefixValid p.addr p.len host) (unixSec (now + p.valid)) ]
+  [ .set (.prefixAutonomous p.label host) (b2i p.autonomous),
+    .set (.prefixOnLink p.label host) (b2i p.onLink),
+    .set (.prefixPreferred p.label host) (unixSec (now + p.preferred)),
+    .set (.prefixValid p.label host) (unixSec (now + p.valid)) ]
 
 /-- The RA branch of the type switch. -/
 def raOps (ra : RA) (host : Nat) (now : Time) : List MetricOp :=
@@ -177,27 +208,42 @@ def observe (evs : List Event) : List (Series × Int) :=
 
   Lexicographic on (metric index, host, message type, prefix address, prefix length), encoded
   into one `Nat`; the encoding is order-preserving for message types and lengths below 2¹⁶ and
-  addresses below 2¹²⁸, which is all the harness generates.  It only fixes the print order. -/
+  addresses below 2¹²⁸, which is all the harness generates.  It only fixes the print order.
+
+  Token form of a `prefix` label: `addr len` with `len ≤ 128` for `addr/len`; the pair
+  `0 256` (256 is no length byte) for the literal `invalid Prefix`. -/
+
+/-- `len` token of the `invalid Prefix` label -/
+def invalidLenTok : Nat := 256
+
+def PLabel.toks : PLabel → Nat × Nat
+  | .cidr a l => (a, l)
+  | .invalid => (0, invalidLenTok)
+
+def PLabel.ofToks (a l : Nat) : Option PLabel :=
+  if l ≤ 128 then some (.cidr a l)
+  else if a = 0 ∧ l = invalidLenTok then some .invalid
+  else none
 
 def Series.fields : Series → Nat × Nat × Nat × Nat × Nat
   | .received h t => (0, h, t, 0, 0)
   | .flagManaged h => (1, h, 0, 0, 0)
   | .flagOther h => (2, h, 0, 0, 0)
   | .defaultRoute h => (3, h, 0, 0, 0)
-  | .prefixAutonomous a l h => (4, h, 0, a, l)
-  | .prefixOnLink a l h => (5, h, 0, a, l)
-  | .prefixPreferred a l h => (6, h, 0, a, l)
-  | .prefixValid a l h => (7, h, 0, a, l)
+  | .prefixAutonomous pl h => (4, h, 0, pl.toks.1, pl.toks.2)
+  | .prefixOnLink pl h => (5, h, 0, pl.toks.1, pl.toks.2)
+  | .prefixPreferred pl h => (6, h, 0, pl.toks.1, pl.toks.2)
+  | .prefixValid pl h => (7, h, 0, pl.toks.1, pl.toks.2)
 
 def Series.ofFields : Nat × Nat × Nat × Nat × Nat → Option Series
   | (0, h, t, 0, 0) => some (.received h t)
   | (1, h, 0, 0, 0) => some (.flagManaged h)
   | (2, h, 0, 0, 0) => some (.flagOther h)
   | (3, h, 0, 0, 0) => some (.defaultRoute h)
-  | (4, h, 0, a, l) => some (.prefixAutonomous a l h)
-  | (5, h, 0, a, l) => some (.prefixOnLink a l h)
-  | (6, h, 0, a, l) => some (.prefixPreferred a l h)
-  | (7, h, 0, a, l) => some (.prefixValid a l h)
+  | (4, h, 0, a, l) => (PLabel.ofToks a l).map (.prefixAutonomous · h)
+  | (5, h, 0, a, l) => (PLabel.ofToks a l).map (.prefixOnLink · h)
+  | (6, h, 0, a, l) => (PLabel.ofToks a l).map (.prefixPreferred · h)
+  | (7, h, 0, a, l) => (PLabel.ofToks a l).map (.prefixValid · h)
   | _ => none
 
 def Series.sortKey (s : Series) : Nat :=
